@@ -63,3 +63,22 @@ func TestGvcAdapterBindRefused(t *testing.T) {
 	}
 	fmt.Printf("NOT-REPRODUCED bind refused: mask=%v err=%v reply=%s\n", mask, err, wire)
 }
+
+// The bind reply carries the id of the request: its unqualified id attribute,
+// not an attribute of another namespace that is also called id.
+func TestGvcAdapterBindReplyIDPrefixed(t *testing.T) {
+	var out bytes.Buffer
+	rw := struct {
+		io.Reader
+		io.Writer
+	}{strings.NewReader(`<iq xmlns="jabber:client" xmlns:x="urn:x" x:id="evil" id="b1" type="set"><bind xmlns="urn:ietf:params:xml:ns:xmpp-bind"><resource>r</resource></bind></iq>`), &out}
+	s := xmpptest.NewClientSession(xmpp.Received|xmpp.Secure|xmpp.Authn, rw)
+	_, _, err := xmpp.BindResource().Negotiate(context.Background(), s, nil)
+	wire := out.String()
+	if !strings.Contains(wire, `id="b1"`) {
+		fmt.Printf("REPRODUCED bind: the request has id=\"b1\" (and x:id=\"evil\" in front of it) but the reply is %s (err=%v)\n", wire, err)
+		t.Fail()
+		return
+	}
+	fmt.Printf("NOT-REPRODUCED bind: reply carries the request id: %s\n", wire)
+}
